@@ -168,3 +168,33 @@ Example attrquery_refines_example :
   Forall wf_attr qs /\
   filter_attrs (requested_of qs) (attrs_of u) = [{| at_name := b "groups"; at_friendly := []; at_format := b "urn:f"; at_values := [b "x"; b "y"] |}].
 Proof. split; [repeat constructor|vm_compute; reflexivity]. Qed.
+
+(** the single sign-on handler's failure reply ([send_failed] of Idp/Sso.v: the abstract message [failmsg]) against the document
+    makeFailedResponse builds from the handler's response object *)
+From Saml Require Import Idp.Sso.
+Local Open Scope string_scope.
+Local Open Scope list_scope.
+Theorem sso_failed_message_refines status reqid issuer acs audience message id1 rest issue until :
+  let M := {| fm_status := status; fm_in_response_to := reqid; fm_issuer := issuer; fm_destination := acs |} in
+  built_sat "makeFailedResponse" (Some (response_rec reqid acs issuer audience)) [DStr status; DStr message; DStr (b "f")] (id1 :: rest) issue until
+    (fun d r => r = rest /\
+       opt_str (at_ d ["Status"; "StatusCode"; "Value"]) = fm_status M /\ opt_str (at_ d ["InResponseTo"]) = fm_in_response_to M /\
+       opt_str (at_ d ["Issuer"; "Text"]) = fm_issuer M /\ opt_str (at_ d ["Destination"]) = fm_destination M /\
+       (at_ d ["Destination"] = None <-> fm_destination M = []) /\ at_ d ["Assertion"] = None).
+Proof.
+  intro M. eapply built_sat_mono; [exact (failed_response_fields reqid acs issuer audience status message id1 rest issue until)|].
+  intros d r (Hr & _ & H1 & _ & H2 & _ & H3 & H4 & H5). split; [exact Hr|]. rewrite H1, H2, H3, H4, H5.
+  cbn [M fm_status fm_in_response_to fm_issuer fm_destination opt_str]. repeat split; auto; destruct acs; try reflexivity; discriminate.
+Qed.
+
+Theorem logout_failed_message_refines reqid url issuer reason message id1 rest issue until :
+  let M := {| lm_status := reason; lm_in_response_to := reqid; lm_issuer := issuer; lm_destination := url |} in
+  built_sat "makeFailedLogoutResponse" (Some (logout_rec reqid url issuer)) [DStr reason; DStr message; DStr (b "f")] (id1 :: rest) issue until
+    (fun d r => r = rest /\
+       opt_str (at_ d ["Status"; "StatusCode"; "Value"]) = lm_status M /\ opt_str (at_ d ["InResponseTo"]) = lm_in_response_to M /\
+       opt_str (at_ d ["Issuer"; "Text"]) = lm_issuer M /\ opt_str (at_ d ["Destination"]) = lm_destination M).
+Proof.
+  intro M. destruct (logout_response_fields reqid url issuer reason message id1 rest issue until) as [H _].
+  eapply built_sat_mono; [exact H|].
+  intros d r (Hr & _ & H1 & H2 & H3 & _ & H4 & _). split; [exact Hr|]. rewrite H1, H2, H3, H4. repeat split.
+Qed.
